@@ -30,6 +30,9 @@ def run(ctx: Ctx) -> None:
     gatesum.rule_derived_gates(ctx)
     rule_wrappers(ctx)
     shapes.rule_removal_order(ctx)
+    from ..rules import tables as _tables
+    _tables.rule_api_project(ctx, [gatesum.SSTATE, tableau.TABLEAU, tableau.CTABLEAU, CLIFF, gatesum.TRANSFORM, STABF, tableau.METRIC,
+                                   "graphiq/backends/stabilizer/functions/rep_conversion.py", "graphiq/backends/stabilizer/compiler.py"])
     ctx.floor("own.tableau", 30)
     ctx.floor("num.rowcol", 3)
     ctx.floor("own.rowops", 8)
@@ -52,6 +55,7 @@ def rule_wrappers(ctx: Ctx) -> None:
 
 
 KNOCKOUTS = [
+    Knockout("missing-project-api", gatesum.SSTATE, sub_once("        tableau, outcome, _ = sfc.z_measurement_gate(\n            tableau, qubit_position, measurement_determinism\n        )\n        self._tableau = transform.hadamard_gate(tableau, qubit_position)", "        tableau, outcome, _ = sfc.x_basis_measurement_gate(\n            tableau, qubit_position, measurement_determinism\n        )\n        self._tableau = transform.hadamard_gate(tableau, qubit_position)"), "api.project", "has no x_basis_measurement_gate"),
     Knockout("outcome-unused", CLIFF, sub_once("    tableau.phase[z_rows] = tableau.phase[z_rows] ^ int(outcome)\n", ""), "measure.outcome-used", "remove_qubit", on_fixed_only=True),
     Knockout("halves-foreign-size", CLIFF, sub_once("        phase_list2 = np.split(tab.phase, 2)", "        phase_list2 = [tab.phase[: tableau.n_qubits], tab.phase[tableau.n_qubits :]]"), "num.halves", "tab.phase"),
     Knockout("measure-rowset-restricted", CLIFF, sub_once("            non_zero_x = np.delete(non_zero_x, i)\n", "            non_zero_x = non_zero_x[non_zero_x >= n_qubits][1:]\n"), "measure.rowset", "row set"),
